@@ -9,7 +9,7 @@ MANIFEST = {
     "technique": "Coq proof over hand-written Gallina transcriptions of avc/annexb.go, avc/nalus.go, avc/avc.go, "
                  "hevc/annexb.go, hevc/hevc.go (the hevc helpers transcribed a second time, from the hevc text alone) "
                  "+ differential correspondence (extracted OCaml vs Go, hook-exported scanner) + failing-input search "
-                 "with oracles written over the generating NAL unit list; the check itself mutation-tested with 36 "
+                 "with oracles written over the generating NAL unit list; the check itself mutation-tested with 39 "
                  "code changes (reports/C14.md)",
     "level_text": "Theorems (coq/c14/C14Theorems.v), all unbounded and closed under the global context: "
                   "C14_has_zero_byte (the hasZeroByte word trick = 'some byte of the word is zero' for every 8-byte word, "
